@@ -10,7 +10,7 @@ From Verif Require Import Proofs.ScaledProofs Proofs.PeriodProofs Proofs.TimeFmt
 (* ---- the fraction fnum/fden is the value of the float ---- *)
 Lemma fden_pos : forall x, (0 < fden x)%Z.
 Proof.
-  intros [s|s| |s m e H]; simpl; try lia. apply Z.pow_pos_nonneg; lia.
+  intros [s|s| |s m e H]; simpl; try lia; try (apply Z.pow_pos_nonneg; lia).
 Qed.
 
 Lemma B2R_frac : forall x : b64, B2R x = (IZR (fnum x) / IZR (fden x))%R.
@@ -50,7 +50,7 @@ Qed.
 
 Lemma near4_real : forall r v : b64, is_finite r = true -> Rabs (B2R r - B2R v) <= / 10000 -> near4 r v = true.
 Proof.
-  intros r v Fr H. unfold near4. rewrite Fr. simpl andb. apply Z.leb_le.
+  intros r v Fr H. unfold near4. rewrite Fr, andb_true_l. apply Z.leb_le.
   pose proof (fden_pos r) as Hr. pose proof (fden_pos v) as Hv.
   assert (HrR : 0 < IZR (fden r)) by (apply IZR_lt; exact Hr).
   assert (HvR : 0 < IZR (fden v)) by (apply IZR_lt; exact Hv).
@@ -66,14 +66,13 @@ Proof.
   apply Rmult_le_compat_r with (r := IZR (fden r) * IZR (fden v)) in H. 2: lra.
   rewrite Rmult_assoc, Rinv_l, Rmult_1_r in H by lra.
   change (IZR (10 ^ 4)) with 10000.
-  rewrite <- mult_IZR in H at 1.
   lra.
 Qed.
 
 Lemma back_close_real : forall (r : b64) k d, (0 <= d)%Z -> is_finite r = true ->
   Rabs (B2R r - IZR k / IZR (10 ^ d)) < / 2 * / IZR (10 ^ d) -> back_close r k d = true.
 Proof.
-  intros r k d Hd Fr H. unfold back_close. rewrite Fr. simpl andb. apply Z.ltb_lt.
+  intros r k d Hd Fr H. unfold back_close. rewrite Fr, andb_true_l. apply Z.ltb_lt.
   pose proof (fden_pos r) as Hr. assert (HrR : 0 < IZR (fden r)) by (apply IZR_lt; exact Hr).
   pose proof (pow10_pos d Hd) as Hp.
   rewrite (B2R_frac r) in H.
